@@ -37,7 +37,7 @@ def drop(d):
     sh(["git", "-C", REPO, "worktree", "prune"])
 
 
-def run_check(prop, d, tier, seed="1"):
+def run_check(prop, d, tier, seed=os.environ.get("VERIF_SEED", "1")):
     env = dict(os.environ, VERIF_REPO=d, VERIF_SEED=seed, VERIF_EVIDENCE_DIR=os.path.join(ROOT, "evidence"))
     t0 = time.time()
     r = sh([os.path.join(V, "vf"), "check", prop, "--tier", tier], env=env, cwd=V)
